@@ -277,7 +277,7 @@ theorem cm_tecTy (b p : Bytes) : ∀ x ∈ tecmpCm b p, TecTy x := by
     | (intro x hx; simp at hx; done)
     | (intro x hx; simp only [List.mem_singleton] at hx; subst hx; exact tecTy_packet _ _ _ _ (by decide))
 
-theorem busEntries_tecTy (b p : Bytes) : ∀ (fuel off : Nat), ∀ x ∈ tecmpBusEntries b p fuel off, TecTy x := by
+theorem busEntries_tecTy (b p : Bytes) (v : Nat) : ∀ (fuel off : Nat), ∀ x ∈ tecmpBusEntries b p v fuel off, TecTy x := by
   intro fuel
   induction fuel with
   | zero => intro off x hx; simp [tecmpBusEntries] at hx
@@ -295,7 +295,7 @@ theorem bus_tecTy (b p : Bytes) : ∀ x ∈ tecmpBus b p, TecTy x := by
   unfold tecmpBus
   split
   · intro x hx; simp at hx
-  · exact busEntries_tecTy b p _ _
+  · exact busEntries_tecTy b p _ _ _
 
 theorem tecmpDecode_tecTy (b : Bytes) : ∀ x ∈ tecmpDecode b, TecTy x := by
   unfold tecmpDecode
